@@ -242,11 +242,11 @@ def _fbd_params(c):
 def _derived_width(c, wn, N, j):
     """full width compute_bin_edges gives bin j of an ascending grid: |e_{j+1} - e_j| with edges at the mid-points"""
     def edge(i):
-        mid = (wn[i - 1] + wn[i]) / 2
         first = wn[0] - (wn[1] - wn[0]) / 2
         last = wn[N - 1] + (wn[N - 1] - wn[N - 2]) / 2
         if c.mode == 'conc':
-            return first if i == 0 else (last if i == N else mid)
+            return first if i == 0 else (last if i == N else (wn[i - 1] + wn[i]) / 2)
+        mid = (wn[i - 1] + wn[i]) / 2
         return z3.If(to_int(i) == 0, first, z3.If(to_int(i) == to_int(N), last, mid))
     return c.Abs(edge(j + 1) - edge(j))
 
@@ -416,10 +416,15 @@ def _fbd_post(c, v0, v1, r):
     return d
 
 
-def _fbd_native(c, p):
+def _fbd_obj(c, p):
     import numpy as np
     from taurex.binning.fluxbinner import FluxBinner
-    o = FluxBinner.__new__(FluxBinner)
+    return FluxBinner(np.array([1.0, 2.0]), np.array([1.0, 1.0]))      # real constructor; the target grid is set per call
+
+
+def _fbd_native(c, o, p):
+    """one binner object serves many spectra (histories); the target grid the contract describes is set from the inputs"""
+    import numpy as np
     o._wngrid = np.array(p['self']['_wngrid'], dtype=float)
     o._wngrid_width = np.array(p['self']['_wngrid_width'], dtype=float)
     err = None if p['error'] is None else np.array(p['error'], dtype=float)
@@ -453,7 +458,7 @@ def _fbd_gen(rng):
     return d
 
 
-FBD = Unit('C05', FB + 'bindown', _fbd_params, pre=_fbd_pre, post=_fbd_post, invariants={0: _fbd_inv}, native=_fbd_native, gen=_fbd_gen,
+FBD = Unit('C05', FB + 'bindown', _fbd_params, pre=_fbd_pre, post=_fbd_post, invariants={0: _fbd_inv}, native_obj=_fbd_obj, native_call=_fbd_native, gen=_fbd_gen,
            cases=[{'errors': e, 'widths': w} for e in (False, True) for w in ('given', 'derived')],
            bounds=[dict(N=2, B=1)], safety=('index', 'sorted'), timeout_ms=30000, short='FluxBinner.bindown',
            doc='1-D spectrum, native widths given (any order of the native points) or derived from an ascending grid by compute_bin_edges (by contract), with and without errors: for every target bin the mean of the native values in the searchsorted window '
